@@ -137,7 +137,7 @@ PROPS = {
     },
     "C12": {
         "kind": "client", "modules": ["OAP.Props.C12"],
-        "keys": ["handshake_first", "stream_shape", "exactly_once_in_order", "enqueue_nonblocking", "ws_url_announces_version", "ws_one_message_per_frame", "timing"],
+        "keys": ["handshake_first", "stream_shape", "exactly_once_in_order", "enqueue_nonblocking", "ws_url_announces_version", "ws_one_message_per_frame", "ws_binary_message", "timing"],
         "rule": "1-48 concurrent writers, frame sizes 1 B .. 2.5 MB, write-queue sizes 1..64, gzip thresholds, a stalled peer; the peer's raw byte log is cut "
                 "into frames by an independent layout parser: first two bytes = handshake, whole frames only, every accepted write exactly once and in "
                 "per-writer order, 'write queue full' returned within milliseconds instead of blocking; WebSocket: version in the URL, one binary message per frame.",
